@@ -3,7 +3,7 @@ from lm.db import short
 from lm import tables, expr as X
 from . import common
 
-LEVEL_NOTE = ('decides: exhaustive alphabet tables (256 bytes x alphabets), encoder structure (error must-pass-through, '
+LEVEL_NOTE = ('decides: exhaustive alphabet tables (256 bytes x alphabets), per-lane semantics of the SIMD encoders (lane engine), encoder structure (error must-pass-through, '
               'first-offender rescan, tail hand-off, select-chain lock-step), dispatcher arms. Trusted: rustc MIR, intrinsic semantics table.')
 
 
@@ -150,3 +150,220 @@ def r51_tables(db, ctx):
 
 def run(db, ctx):
     r51_tables(db, ctx)
+
+
+# ---------------------------------------------------------------------------
+# R5.2 - R5.6: the encoders
+
+from lm import lanes as LN, guards as G
+from lm.lanes import Vec, Ptr
+from lm.match import norm, m
+from . import kernels as KN
+
+ENCODERS = [('lightmotif::pli::platform::avx2::encode_into_avx2', 32), ('lightmotif::pli::platform::sse2::encode_into_sse2', 16)]
+
+
+def r52(db, ctx):
+    ctx.rule('R5.2', 'SIMD encoders, per byte lane: encoded = a for the a < K with letter == as_str()[a] (index and letter in lock-step over a in 0..K), '
+                     'unknown stays all-ones iff no letter matched, error |= unknown every block, the block is stored at the same offset it was loaded from')
+    n = 0
+    for path, W in ENCODERS:
+        f, E, err = KN.evaluate(db, path)
+        if E is None:
+            ctx.fail('R5.2', f, 'lane evaluation', f'reason=unrecognised-shape: {err}')
+            continue
+        blocks = [H for H, L in E.loops.items() if not L.opaque and L.inner and any(a.kind == 'load' and a.loops == (H,) for a in E.acc)]
+        if len(blocks) != 1:
+            ctx.fail('R5.2', f, 'block loop', f'reason=unrecognised-shape: {len(blocks)} candidate block loops')
+            continue
+        H = blocks[0]
+        L = E.loops[H]
+        if len(L.inner) != 1:
+            ctx.fail('R5.2', f, 'symbol loop', 'reason=unrecognised-shape')
+            continue
+        Hk = L.inner[0]
+        Lk = E.loops[Hk]
+        probs = []
+        if not (Lk.iter and Lk.iter[0] == 'range' and norm(Lk.iter[1]) == ('k', 0) and 'USIZE' in X.canon(Lk.iter[2])):
+            probs.append(f'symbol loop runs over {Lk.iter}, expected 0..K')
+        a_elem = ('elem', Lk.iter, Hk)
+        vecs = {l: v for l, v in Lk.carried.items() if isinstance(v, Vec)}
+        enc = unk = None
+        for l, v in vecs.items():
+            u = Lk.update[l]
+            ok_all = True
+            kind = None
+            for i in range(W):
+                t = u.b[i]
+                me = ('phi', Hk, l, i)
+                if not (isinstance(t, tuple) and t[0] == 'select' and t[3] == me and t[1][0] == 'eq'):
+                    ok_all = False
+                    break
+                mask, val = t[1], t[2]
+                letter, ascii_ = mask[1], mask[2]
+                if not (isinstance(letter, tuple) and letter[0] == 'ld' and letter[2] == i and letter[1][0][:2] == ('phi', H)):
+                    ok_all = False
+                    probs.append(f'lane {i}: compared byte is {str(letter)[:60]}, not input byte {i} of the block')
+                    break
+                want_ascii = ('scalar', 1, ('idx', ('deref', ('call', 'core::str::as_bytes', (('call', 'lightmotif::abc::Alphabet::as_str', ()),))), a_elem))
+                if ascii_ != want_ascii:
+                    ok_all = False
+                    probs.append(f'lane {i}: letter compared with {str(ascii_)[:80]}, expected as_str().as_bytes()[a]')
+                    break
+                k2 = 'enc' if val == ('scalar', 1, a_elem) else ('unk' if val == ('k', 0) else None)
+                if k2 is None or (kind and kind != k2):
+                    ok_all = False
+                    probs.append(f'lane {i}: blended value {str(val)[:60]} is neither the index a nor 0')
+                    break
+                kind = k2
+            if ok_all and kind == 'enc':
+                enc = l
+            elif ok_all and kind == 'unk':
+                unk = l
+        if enc is None or unk is None:
+            probs.append('did not find both an `encoded` (select(eq, a, old)) and an `unknown` (select(eq, 0, old)) accumulator')
+        else:
+            if not all(x == ('k', 255) for x in vecs[unk].b):
+                probs.append('`unknown` does not start as all-ones')
+            # error accumulation in the block loop
+            errs = [l for l, v in L.carried.items() if isinstance(v, Vec)]
+            ok_err = False
+            for l in errs:
+                u = L.update[l]
+                if all(u.b[i] in (('or', ('phi', H, l, i), ('out', Hk, unk, i)), ('or', ('out', Hk, unk, i), ('phi', H, l, i))) for i in range(W)) and all(x == ('k', 0) for x in L.carried[l].b):
+                    ok_err = True
+                    err_local = l
+            if not ok_err:
+                probs.append('error flag is not `error |= unknown` from an all-zero start')
+            # store: encoded -> dst at the same running offset as the load
+            st = [a for a in E.acc if a.kind == 'store' and a.loops == (H,) and isinstance(a.value, Vec)]
+            ld = [a for a in E.acc if a.kind == 'load' and a.loops == (H,)]
+            if not (len(st) == 1 and len(ld) == 1 and all(st[0].value.b[i] == ('out', Hk, enc, i) for i in range(W))):
+                probs.append('the stored block is not the encoded vector')
+            else:
+                sp, lp = st[0].ptr, ld[0].ptr
+                su, lu = KN.ptr_update(E, H, sp.base[2]), KN.ptr_update(E, H, lp.base[2])
+                si, li = L.carried[sp.base[2]], L.carried[lp.base[2]]
+                if not (su == lu == {'': W} and not si.off and not li.off and si.base == ('slice', ('p', 2)) and li.base == ('slice', ('p', 1)) and not sp.off and not lp.off):
+                    probs.append('source and destination pointers do not advance together from the starts of seq / dst')
+        if probs:
+            ctx.fail('R5.2', f, 'encoder lanes', '; '.join(probs[:3]))
+        else:
+            n += 1
+            ctx.ok('R5.2', f, f'{f.name}: {W} byte lanes: encoded[t] = a iff letter[t] == as_str()[a]; unknown/error flags; block stored in place',
+                   [f'{W} lanes x K iterations', 'R5.1(b): letters distinct, so the select chain is order-independent'])
+    ctx.floor('R5.2', n, 2, 'SIMD encoders')
+
+
+def r53_54(db, ctx):
+    ctx.rule('R5.3', 'error must-pass-through: every path to Ok(()) passes the test of the error flag; on the flagged side the input is rescanned from its start with from_ascii and the first Err propagates')
+    ctx.rule('R5.4', 'tail hand-off: the generic encoder is called on seq[i..] / dst[i..] with the i the block loop stopped at, under i < len, and its result is propagated')
+    for path, W in ENCODERS:
+        f = db.fn(path)
+        R = X.Rec(f)
+        oks = C09_ok_blocks(f)
+        # error test block: switch on testz(...) != 1   or  any(|x| x != 0)
+        tests = []
+        for bi in range(len(f.blocks)):
+            t = f.term(bi)
+            if t['k'] == 'switch':
+                d = X.canon(norm(R.operand(t['discr'])))
+                if '_mm256_testz_si256' in d or ('Iterator::any' in d):
+                    tests.append(bi)
+        good = len(tests) == 1 and oks and all(f.dominates(tests[0], o) for o in oks)
+        # rescan from the start
+        rescans = [(bi, t) for bi, t in f.calls() if (f.callee_short(t) or '').endswith('Symbol::from_ascii')]
+        rs_ok = False
+        for bi, t in rescans:
+            a = norm(R.operand(t['args'][0]))
+            if a[0] == 'elem' and X.canon(a[1]) in ('core::slice::iter(arg1)',):
+                rs_ok = True
+        # the `?`: an Err return reachable from the rescan
+        errs = [bi for bi, blk in enumerate(f.blocks) for st in blk['stmts'] if st['k'] == 'assign' and st['p']['l'] == 0 and st['rv']['k'] == 'agg' and st['rv'].get('variant') == 'Err']
+        prop = bool(errs) or any((f.callee_short(t) or '').endswith('from_residual') and t['dest']['l'] == 0 for _, t in f.calls())
+        if good and rs_ok and prop:
+            ctx.ok('R5.3', f, 'Ok(()) dominated by the error-flag test; flagged side rescans seq.iter() from the start with from_ascii(..)?', ['first offending byte reported'])
+        else:
+            ctx.fail('R5.3', f, 'error path', f'flag test dominates Ok={good}, rescan from start={rs_ok}, Err propagated={prop}')
+        # R5.4
+        tails = [(bi, t) for bi, t in f.calls() if (f.callee_short(t) or '').endswith('Encode::encode_into')]
+        ok4 = False
+        why = f'{len(tails)} tail calls'
+        if len(tails) == 1:
+            bi, t = tails[0]
+            a1, a2 = norm(R.operand(t['args'][1])), norm(R.operand(t['args'][2]))
+            b1 = m(('call~', '::index', (('p', 1), ('agg', '_', ('$i',)))), a1)
+            b2 = m(('call~', '::index_mut', (('p', 2), ('agg', '_', ('$i',)))), a2)
+            rels = G.relations(f, R, bi)
+            if b1 is not None and b2 is not None and b1['$i'] == b2['$i'] and b1['$i'][0] == 'v' and f.local_name(b1['$i'][1]) == 'i':
+                lt = G.holds(rels, 'lt', lambda e: norm(e) == b1['$i'], lambda e: 'len' in X.canon(e))
+                # result propagated: a Try::branch on the call result
+                tb = t.get('target')
+                propagated = any((f.callee_short(t2) or '').endswith('Try::branch') and f.dominates(bi, b2_) for b2_, t2 in f.calls())
+                if lt and propagated:
+                    ok4 = True
+                else:
+                    why = f'guard i < len: {bool(lt)}, result propagated: {propagated}'
+            else:
+                why = f'tail called on {X.show(a1, 60)} / {X.show(a2, 60)}'
+        (ctx.ok if ok4 else ctx.fail)('R5.4', f, 'generic tail on seq[i..], dst[i..] under i < len, result propagated with ?', *([['same i for source and destination']] if ok4 else [why]))
+
+
+def C09_ok_blocks(f):
+    return [bi for bi, blk in enumerate(f.blocks) for st in blk['stmts'] if st['k'] == 'assign' and st['p']['l'] == 0 and not st['p']['pr'] and st['rv']['k'] == 'agg'
+            and st['rv'].get('adt', '').endswith('result::Result') and st['rv'].get('variant') == 'Ok']
+
+
+def r55_56(db, ctx):
+    ctx.rule('R5.5', 'generic encoder: dst[i] = from_ascii(seq[i])? for every i of enumerate(seq), after assert_eq!(seq.len(), dst.len())')
+    fs = [g for g in db.by_short.get('lightmotif::pli::Encode::encode_into', []) if g.raw.get('trait_default_of')]
+    if len(fs) != 1:
+        ctx.fail('R5.5', 'lightmotif::pli::Encode::encode_into', 'default body', 'reason=anchor-missing')
+    else:
+        f = fs[0]
+        R = X.Rec(f)
+        st = [s for s in X.stores(f, R) if norm(s['target'])[0] == 'idx']
+        ok = False
+        why = f'{len(st)} stores'
+        if len(st) == 1:
+            tg, v = norm(st[0]['target']), norm(st[0]['value'])
+            b = m(('idx', '$dst', ('fld', ('elem', ('call~', 'enumerate', ('$it',)), '$L'), '0')), tg)
+            okv = 'Symbol::from_ascii' in X.canon(v) and b is not None and X.canon(('fld', ('elem', ('call', 'core::iter::traits::iterator::Iterator::enumerate', (b['$it'],)), b['$L']), '1')) in X.canon(v)
+            if b is not None and okv and norm(b['$dst']) == ('p', 3):
+                ok = True
+            else:
+                why = f'{X.show(tg, 80)} := {X.show(v, 100)}'
+        (ctx.ok if ok else ctx.fail)('R5.5', f, 'dst[i] = from_ascii(seq[i])?', *([['enumerate over the input bytes']] if ok else [why]))
+    ctx.rule('R5.6', 'EncodedSequence::encode / from_str use the dispatching pipeline; Display writes as_char of every symbol in order; dispatcher arms (R1.5)')
+    f = db.fn('lightmotif::seq::EncodedSequence::encode')
+    cs = {f.callee_short(t) for _, t in f.calls()}
+    ok = {'lightmotif::pli::Pipeline::dispatch', 'lightmotif::pli::Encode::encode'} <= cs
+    (ctx.ok if ok else ctx.fail)('R5.6', f, 'EncodedSequence::encode = Pipeline::dispatch().encode(..)', *([[]] if ok else [f'callees {sorted(c for c in cs if c and "lightmotif" in c)}']))
+    g = [x for x in db.fns.values() if x.path.startswith('<lightmotif::seq::EncodedSequence<A> as core::fmt::Display>::fmt')]
+    if g:
+        R = X.Rec(g[0])
+        wc = [(bi, t) for bi, t in g[0].calls() if (g[0].callee_short(t) or '').endswith('Write::write_char')]
+        ok = len(wc) == 1 and 'Symbol::as_char(elem(core::slice::iter(' in X.canon(norm(R.operand(wc[0][1]['args'][1])))
+        (ctx.ok if ok else ctx.fail)('R5.6', g[0], 'Display writes as_char(symbol) for every symbol in order', *([['round trip follows from R5.1(a)']] if ok else ['Display does not write as_char of each symbol']))
+    from . import C01
+    before = len(ctx.obligations)
+    vb = len(ctx.violations)
+    C01.r15(db, ctx)
+    for o in ctx.obligations[before:]:
+        o['rule'] = 'R5.6'
+    for v in ctx.violations[vb:]:
+        v['key'] = v['key'].replace(v['rule'], 'R5.6')
+        v['rule'] = 'R5.6'
+    ctx.rules_text.pop('R1.5', None)
+    if 'R1.5' in ctx.floors:
+        ctx.floors['R5.6'] = ctx.floors.pop('R1.5')
+
+
+_run_tables = run
+
+
+def run(db, ctx):
+    _run_tables(db, ctx)
+    r52(db, ctx)
+    r53_54(db, ctx)
+    r55_56(db, ctx)
